@@ -30,6 +30,21 @@ theorem C08_eval_terminates (g : Graph) (hr : g.ranked = true) (f : Nat) (fr : F
     (flowNames g n R f).isSome :=
   C08_eval_terminates_rank g (computeRank g) hr f fr hf R n hn
 
+/-- COMPLETENESS of the check: `Graph.ranked` holds as soon as ANY map flow id ↦ Nat (an array
+    indexed by flow id) strictly decreases along every non-loop call and everything referred to
+    exists (`validRankU`: no bound on the values) - so a rank argued for on paper or supplied by
+    the extractor (e.g. nesting depth of the scope, then creation index) establishes `ranked`, and
+    with it all theorems here.  (The computed rank is the least one, at most the number of flows
+    with a smaller given rank, hence ≤ #flows.) -/
+theorem C08_ranked_complete_unbounded (g : Graph) (rk : Array Nat) (h : validRankU g rk = true) :
+    g.ranked = true :=
+  ranked_of_validRankU g rk h
+
+/-- in particular from a valid rank in the sense of `validRank` (values ≤ #flows) -/
+theorem C08_ranked_complete (g : Graph) (rk : Array Nat) (h : validRank g rk = true) :
+    g.ranked = true :=
+  ranked_of_validRank g rk h
+
 /-- in the form "some fuel, below the bound, suffices" -/
 theorem C08_eval_terminates_ex (g : Graph) (hr : g.ranked = true) (f : Nat) (fr : FlowRec)
     (hf : g.flow? f = some fr) (R : List Nat) :
@@ -113,6 +128,22 @@ example :
     runQueries gNested gNested.rankFuel {} [⟨4, (0, 0), "y"⟩, ⟨6, (9, 9), "y"⟩, ⟨3, (0, 0), "d"⟩] =
       [some (some [.undef "y", .nm 104]), some (some [.undef "y", .nm 104]),
        some (some [.undef "d", .nm 105])] := by
+  decide +kernel
+
+/-- `C08_ranked_complete_unbounded` / `C08_ranked_complete`: a decreasing rank for `gScopes` that is
+    NOT the computed one - scope nesting depth * 100 + creation index: not a `validRank` (values
+    exceed #flows = 4) but a `validRankU`; and a bounded one -/
+def exDepthRank : Array Nat := Array.ofFn (n := 32) (fun i =>
+  if i.val = 10 then 100 else if i.val = 20 then 201 else if i.val = 30 then 302 else
+  if i.val = 31 then 303 else 0)
+def exSmallRank : Array Nat := Array.ofFn (n := 32) (fun i =>
+  if i.val = 10 then 0 else if i.val = 20 then 1 else if i.val = 30 then 2 else
+  if i.val = 31 then 4 else 0)
+
+example :
+    validRankU gScopes exDepthRank = true ∧ validRank gScopes exDepthRank = false ∧
+    validRank gScopes exSmallRank = true ∧ computeRank gScopes ≠ exSmallRank ∧
+    validRankU gCyclic (computeRank gCyclic) = false := by
   decide +kernel
 
 end SuppModel.Props.C08Flow
